@@ -57,7 +57,10 @@ def run(item):
     part2.get_block(z, 0)
     val = solve()
     if Point.counter > MAXP:
-        raise RuntimeError("leaf budget")
+        # the model keeps every behaviour within MAXP leaves (2 + (d - 1) per decomposed point + (d - 1) for the second
+        # partition): more leaves than that is an observation, judged by PartitionTrace (clause c10), not a harness error
+        return dict(d=item["d"], ctor=item.get("ctor", 1), solved=0, h=item["h"], out=out, ret=[[] for _ in ret], oid=oid,
+                    blocks=[[] for _ in range(5)], cons=[], base=[[] for _ in range(5)], np=Point.counter, over=1)
     blocks = []
     for p in base:
         bl = None
@@ -74,4 +77,4 @@ def run(item):
         F, G, cc = proj.evec(c.expression, MAXP, Expression.counter)
         cons.append(dict(sense=proj.sense(c), e=dict(G=sparse(G), c=[cc.numerator, cc.denominator])))
     return dict(d=item["d"], ctor=item.get("ctor", 1), solved=0 if val is None else 1, h=item["h"], out=out, ret=ret, oid=oid, blocks=blocks, cons=cons,
-                base=[sparse(proj.pvec(p, MAXP)) if p is not None else [] for p in base], np=Point.counter)
+                base=[sparse(proj.pvec(p, MAXP)) if p is not None else [] for p in base], np=Point.counter, over=0)
